@@ -371,10 +371,8 @@ type vf34ReqOpts struct {
 	NKeysDelta   int    // error in NotaryAssisted.NKeys
 	PresignedIR  bool   // alphabet witness already carries an invocation script
 	ExtraWitness bool
-	ProxyWitness bool // non-empty proxy witness
 	NoAttribute  bool
 	FBAttributes int // number of fallback attributes to drop (0 = well-formed)
-	BadNotaryWit bool
 	EmptyInvoker bool
 
 	// additions of the C34 monitor
@@ -382,8 +380,68 @@ type vf34ReqOpts struct {
 	AlphaSigner    bool // signer #1 is a foreign account (witness #1 still carries the alphabet script)
 	AlphaWitness   bool // witness #1 carries a foreign verification script (signer #1 still the alphabet account)
 	ExtraSigner    bool // one more signer than witnesses
-	NotaryInvocBad bool // notary placeholder with a non-dummy invocation script
 	FBNoNVB        bool // fallback with three attributes none of which is NotValidBefore
+
+	// witness forms: every witness is (invocation script, verification script); the
+	// variations are drawn from the product of the forms of both fields, not from one
+	// field at a time
+	NotaryInv   int  // vf34Inv*: invocation script of the Notary placeholder (vf34InvDefault: modern empty or legacy dummy, drawn per request)
+	NotaryVerif int  // vf34Verif*: verification script of the Notary placeholder
+	ProxyInv    int  // invocation script of the proxy witness (vf34InvDefault = empty)
+	ProxyVerif  int  // verification script of the proxy witness
+	AlphaNoVer  bool // alphabet witness without verification script (signer #1 still the alphabet account)
+}
+
+// forms of an invocation script
+const (
+	vf34InvDefault = iota
+	vf34InvEmpty   // modern placeholder (neo-go > 0.101)
+	vf34InvDummy   // legacy placeholder: PUSHDATA1 64 and 64 zero bytes
+	vf34InvSig     // PUSHDATA1 64 and 64 random bytes: looks like a real signature
+	vf34InvCut     // the legacy placeholder without its last byte
+	vf34InvBit     // the legacy placeholder with one bit set
+	vf34InvForms
+)
+
+// forms of a verification script
+const (
+	vf34VerifEmpty = iota
+	vf34VerifTrue  // PUSHT: "anyone can sign"
+	vf34VerifAlpha // the alphabet multisignature script
+	vf34VerifForms
+)
+
+var vf34InvNames = [...]string{"default", "empty", "dummy", "signature", "dummy-cut", "dummy-bit-set"}
+var vf34VerifNames = [...]string{"empty", "pusht", "alphabet-multisig"}
+
+func vf34InvForm(rng *rand.Rand, form int) []byte {
+	switch form {
+	case vf34InvEmpty:
+		return nil
+	case vf34InvDummy:
+		return slices.Clone(vf34DummySig)
+	case vf34InvSig:
+		return append([]byte{byte(opcode.PUSHDATA1), 64}, vf34RandBytes(rng, 64)...)
+	case vf34InvCut:
+		return slices.Clone(vf34DummySig[:len(vf34DummySig)-1])
+	case vf34InvBit:
+		b := slices.Clone(vf34DummySig)
+		b[2+rng.IntN(64)] |= 1 << rng.IntN(8)
+		return b
+	}
+	panic("harness: unknown invocation script form")
+}
+
+func vf34VerifForm(form int, alphabet []byte) []byte {
+	switch form {
+	case vf34VerifEmpty:
+		return nil
+	case vf34VerifTrue:
+		return []byte{byte(opcode.PUSHT)}
+	case vf34VerifAlpha:
+		return slices.Clone(alphabet)
+	}
+	panic("harness: unknown verification script form")
 }
 
 var vf34DummySig = append([]byte{byte(opcode.PUSHDATA1), 64}, make([]byte, 64)...)
@@ -411,9 +469,10 @@ func vf34Request(rng *rand.Rand, committee keys.PublicKeys, proxy util.Uint160, 
 		{Account: hash.Hash160(ms), Scopes: transaction.Global},
 	}
 	tx.Scripts = []transaction.Witness{{}, {VerificationScript: ms}}
-	if o.ProxyWitness {
-		tx.Scripts[0].InvocationScript = slices.Clone(vf34DummySig)
+	if o.ProxyInv != vf34InvDefault {
+		tx.Scripts[0].InvocationScript = vf34InvForm(rng, o.ProxyInv)
 	}
+	tx.Scripts[0].VerificationScript = vf34VerifForm(o.ProxyVerif, ms)
 	nkeys := len(committee)
 	if o.PresignedIR {
 		tx.Scripts[1].InvocationScript = slices.Clone(vf34DummySig)
@@ -428,11 +487,12 @@ func vf34Request(rng *rand.Rand, committee keys.PublicKeys, proxy util.Uint160, 
 		nkeys++
 	}
 	tx.Signers = append(tx.Signers, transaction.Signer{Account: nativehashes.Notary, Scopes: transaction.None})
-	nw := transaction.Witness{InvocationScript: slices.Clone(vf34DummySig)}
-	if o.BadNotaryWit {
-		nw.VerificationScript = []byte{byte(opcode.PUSHT)}
+	// both placeholder forms are in use on the network: requests carry either of them
+	ni := o.NotaryInv
+	if def := vf34InvEmpty + rng.IntN(2); ni == vf34InvDefault {
+		ni = def
 	}
-	tx.Scripts = append(tx.Scripts, nw)
+	tx.Scripts = append(tx.Scripts, transaction.Witness{InvocationScript: vf34InvForm(rng, ni), VerificationScript: vf34VerifForm(o.NotaryVerif, ms)})
 	if o.ExtraWitness {
 		tx.Signers = append(tx.Signers, transaction.Signer{Account: vf34Key(rng).GetScriptHash(), Scopes: transaction.None})
 		tx.Scripts = append(tx.Scripts, transaction.Witness{InvocationScript: slices.Clone(vf34DummySig)})
@@ -466,8 +526,8 @@ func vf34Request(rng *rand.Rand, committee keys.PublicKeys, proxy util.Uint160, 
 	if o.ExtraSigner {
 		tx.Signers = append(tx.Signers, transaction.Signer{Account: vf34Key(rng).GetScriptHash(), Scopes: transaction.None})
 	}
-	if o.NotaryInvocBad {
-		tx.Scripts[len(tx.Scripts)-1].InvocationScript = append([]byte{byte(opcode.PUSHDATA1), 64}, vf34RandBytes(rng, 64)...)
+	if o.AlphaNoVer {
+		tx.Scripts[1].VerificationScript = nil
 	}
 
 	fb := transaction.New([]byte{byte(opcode.RET)}, 0)
